@@ -423,6 +423,11 @@ func (iter *iavlIterator) Value() []byte {
 // Implements types.Iterator.
 func (iter *iavlIterator) Close() {
 	close(iter.quitCh)
+	// wait for the producer goroutine to stop: it must not keep walking the tree (and reading
+	// nodes from the database) while the caller goes on to mutate, commit and prune it
+	iter.waitInit()
+	for range iter.iterCh {
+	}
 }
 
 //----------------------------------------
